@@ -14,6 +14,9 @@ R21.2  ProcessExecutor::handleRead: the arm for `read() <= 0` on the type byte (
        handleRead returns false.
 R21.3  the event loop's only `break` is dominated by "no more files, no pipes, no children".
 R21.4  (census, not armed) std::exit() calls in the parent that are reachable on a short read.
+R21.5  every removal from the list of pending read pipes (directly or through a local lambda, checked at each call
+       site) is dominated by "handleRead returned false": that is the only place where a dead worker is counted
+       into the result, and where the worker's own result (CHILD_END) is added.
 """
 from .common.facts import walk, walk_parents, strip, strip_all, call_args, AnalysisBroken
 from .common import paths
@@ -29,7 +32,8 @@ def run(ctx):
     for rid, t in [('R21.1', 'abnormal child status -> reportInternalChildErr; child removed from the table'),
                    ('R21.2', 'premature end of pipe is counted and the pipe is retired'),
                    ('R21.3', 'the event loop ends only when no file, pipe or child remains'),
-                   ('R21.4', 'census of std::exit in the parent read path')]:
+                   ('R21.4', 'census of std::exit in the parent read path'),
+                   ('R21.5', 'a pending pipe is retired only after handleRead returned false')]:
         ctx.rule(rid, t)
     loops = [f for f in F.all_fns() if f['file'].startswith('cli/') and any(c['f'].startswith('waitpid(') for c in f['calls'])]
     if len(loops) != 1:
@@ -187,23 +191,87 @@ def run(ctx):
            'a premature end of pipe returns false after incrementing the result counter' if ok else
            'the `read() <= 0` arm of handleRead does not both count the failure and return false: a worker that dies before writing is not '
            'reflected in the exit status', '%s:%s' % (hr['file'], first_read['l']))
-    # caller retires the pipe on false
+    # caller retires the pipe on false; statements are looked at together with the bodies of the local lambdas they call
+    lambdas = {}
+    for d in walk(body):
+        if d.get('k') == 'VarDecl' and d.get('init') is not None:
+            i0 = strip(d['init'])
+            while i0 is not None and i0.get('k') in ('ExprWithCleanups', 'CXXConstructExpr', 'MaterializeTemporaryExpr', 'CXXBindTemporaryExpr') and i0.get('c'):
+                i0 = strip(i0['c'][0])
+            if i0 is not None and i0.get('k') == 'LambdaExpr':
+                lambdas[d['di']] = i0
+
+    def lambda_called(n):
+        """DeclRef of a local lambda being called by call-operator expression n (else None)."""
+        if n.get('k') == 'CXXOperatorCallExpr' and n.get('op') == '()' and len(n.get('c', ())) >= 2:
+            o = strip(n['c'][1])
+            if o is not None and o.get('k') == 'DeclRefExpr' and o.get('di') in lambdas:
+                return o['di']
+        return None
+
+    def walk_inl(n, depth=0):
+        for y in walk(n):
+            yield y
+            li = lambda_called(y)
+            if li is not None and depth < 3:
+                yield from walk_inl(lambdas[li], depth + 1)
+
+    read_res = set()
+    for d in walk(body):
+        if d.get('k') == 'VarDecl' and d.get('init') is not None and any((y.get('fn') or '').endswith('handleRead') for y in walk(d['init'])):
+            read_res.add(d['di'])
+    if not read_res:
+        raise AnalysisBroken('ProcessExecutor::check: the result of handleRead is not stored in a local')
     closes = False
     for x in walk(body):
         if x.get('k') == 'IfStmt' and x.get('cond') is not None:
             c0 = strip(x['cond'])
             if c0.get('k') == 'UnaryOperator' and c0.get('op') == '!' and x.get('then') is not None:
                 v = strip(c0['c'][0])
-                if v.get('k') == 'DeclRefExpr':
-                    # the variable holds handleRead's result?
-                    for d in walk(body):
-                        if d.get('k') == 'VarDecl' and d.get('di') == v.get('di') and d.get('init') is not None and any((y.get('fn') or '').endswith('handleRead') for y in walk(d['init'])):
-                            th = x['then']
-                            has_close = any(y.get('fn') == 'close' for y in walk(th))
-                            has_erase = any((y.get('fn') or '').endswith('::erase') for y in walk(th))
-                            closes = has_close and has_erase
+                if v.get('k') == 'DeclRefExpr' and v.get('di') in read_res:
+                    th = x['then']
+                    has_close = any(y.get('fn') == 'close' for y in walk_inl(th))
+                    has_erase = any((y.get('fn') or '').endswith('::erase') for y in walk_inl(th))
+                    closes = has_close and has_erase
     ctx.ob('R21.2', 'pipe-retired', closes, 'when handleRead returns false the caller closes the descriptor and erases the pipe' if closes else
            'the caller does not close and erase the pipe when handleRead returns false', where)
+
+    # ---- R21.5 a pipe is retired only through the accounting gate ----------------------------------------------------
+    # rpipes = the list of pipes the event loop still waits for.  A crashed worker is reflected in the exit status only by
+    # handleRead's "premature end of pipe" arm, so every removal from that list must be dominated by "handleRead returned false".
+    pend = None
+    for d in walk(body):
+        if d.get('k') == 'VarDecl' and (d.get('t') or '').startswith('std::list<int') and any(
+                y.get('k') == 'CXXMemberCallExpr' and (y.get('fn') or '').endswith('::push_back') and any(z.get('di') == d['di'] for z in walk(y['c'][0])) for y in walk(body)):
+            pend = d['di']
+    if pend is None:
+        raise AnalysisBroken('ProcessExecutor::check: the list of pending read pipes was not found')
+
+    def is_retire(y):
+        return y.get('k') == 'CXXMemberCallExpr' and (y.get('fn') or '').endswith('::erase') and any(z.get('di') == pend for z in walk(y['c'][0]))
+    retiring_lambdas = {li for li, lam in lambdas.items() if any(is_retire(y) for y in walk_inl(lam))}
+
+    def in_lambda(n):
+        return any(any(y is n for y in walk(lam)) for lam in lambdas.values())
+
+    def cond5(n, truth):
+        n0 = strip(n)
+        if n0 is not None and n0.get('k') == 'DeclRefExpr' and n0.get('di') in read_res:
+            return (('read-ok', truth),)
+        return ()
+
+    def obs5(n):
+        return (is_retire(n) and not in_lambda(n)) or lambda_called(n) in retiring_lambdas
+    res5 = paths.analyse(body, cond=cond5, observe=obs5)
+    sites = sorted(((res5.at_node[i], st) for i, st in res5.at.items()), key=lambda t: t[0]['l'])
+    ctx.floor('R21.5 sites retiring a pending pipe', len(sites), 1)
+    for i, (n, st) in enumerate(sites):
+        ok = ('read-ok', False) in st
+        ctx.ob('R21.5', 'retire#%d' % i, ok,
+               ('the pipe is retired at line %s only after handleRead returned false (end of worker / counted failure)' % n['l']) if ok else
+               ('the pending pipe is retired at line %s on a path where handleRead has not returned false: neither the worker\'s CHILD_END result nor the '
+                '"premature end of pipe" failure count reaches the exit status, and unread findings of that worker are dropped' % n['l']),
+               '%s:%s' % (pe['file'], n['l']))
 
     # ---- R21.4 census -----------------------------------------------------------------------------------------
     exits = [x for x in walk(hb) if x.get('k') == 'CallExpr' and x.get('fn') in ('exit', 'std::exit')]
